@@ -10,10 +10,10 @@ import (
 
 func init() {
 	register(&property{
-		ID: "C02",
+		ID:          "C02",
 		Explanation: "Static decision of the routing discipline: (R1) the AND/OR/NOT/empty combinators, evaluated by the path evaluator over every outcome sequence of up to 2 (3 for NOT) inner matchers, return exactly the truth-table result and stop at the first deciding matcher; (R2) the route's handler chain is invoked only under the true edge of 'matched' and the no-error edges of the same AnyMatch call; (R6) subroute compiles its routes with its own next handler as fallback on every invocation, Server uses the no-op and ListenerWrapper the hand-off fallback; (R7) bounded abstract interpretation of the compiled route handler's SSA for 0..3 routes with every outcome of matchers, prefetch and handlers (terminal / non-terminal / wrapping / failing): handlers run only right after their route matched the current stream, in order, never twice, a matched route is never passed over, nothing runs after a terminal route, the fallback runs exactly once, last, on the connection handed on, and only when every remaining route was decided 'no' on the stream as the last handler left it.",
-		NotDecided: "Route lists longer than 3 and more than 3 prefetch rounds (the loop is uniform in the route index, so this is a bound, not a sample); the verdicts of real matchers on real bytes (C06/C14); 'first matching route whenever decidable' beyond what the invariants of R7 state; timing.",
-		Run:        runC02,
+		NotDecided:  "Route lists longer than 3 and more than 3 prefetch rounds (the loop is uniform in the route index, so this is a bound, not a sample); the verdicts of real matchers on real bytes (C06/C14); 'first matching route whenever decidable' beyond what the invariants of R7 state; timing.",
+		Run:         runC02,
 	})
 }
 
@@ -51,11 +51,14 @@ func combinatorTable(c *Ctx, r *Report, rule, fnName, innerCallee string, setup 
 			}
 			e := SV{K: "ref", Known: true, Desc: fmt.Sprintf("err%d", k)}
 			tup := func(m bool, e SV) SV { return SV{K: "tuple", Desc: "inner", Elems: []SV{symBool(m), e}} }
+			// the "need more data" answer is an error like any other for the combinators
+			nm := SV{K: "ref", Known: true, Desc: "global:layer4.ErrConsumedAllPrefetchedBytes"}
 			return []CallAlt{
 				{Ret: tup(true, symNil()), Note: "T,nil"},
 				{Ret: tup(false, symNil()), Note: "F,nil"},
 				{Ret: tup(false, e), Note: "F," + e.Desc},
 				{Ret: tup(true, e), Note: "T," + e.Desc},
+				{Ret: tup(false, nm), Note: "F," + nm.Desc},
 			}
 		}
 		paths, err := evalPaths(fn, sc)
